@@ -3,14 +3,17 @@
 //@ anchor: serde_avro_fast/src/object_container_file_encoding/writer/vectored_write_polyfill.rs :: pub\(super\) fn write_all_vectored<
 //@ include: common
 
+// named explicitly (not only through `use super::*`): the file under contract may stop importing some of them
+use std::io::{Error, ErrorKind, IoSlice, Result, Write};
+
 /// Sink double: every `write_vectored` call nondeterministically (a) accepts any k in 0..=total
 /// bytes offered (in order, across slice boundaries), (b) reports Interrupted (at most
 /// `interrupts_left` times), or (c) reports a hard error (if `may_fail`).
 ///
 /// The three source slices carry *position-coded* bytes (10+i, 20+i, 30+i), so instead of storing
 /// what it receives (array writes under symbolic indices blow the SAT instance up to 25M clauses)
-/// the sink checks, at every call, that what it is OFFERED is exactly the not-yet-accepted suffix
-/// of the stream s0++s1++s2 - which is equivalent to "nothing lost, duplicated or reordered".
+/// the sink checks, at every call, that what it is OFFERED is a prefix of the not-yet-accepted suffix
+/// of the stream s0++s1++s2 - which (with `accepted == total` on Ok) is equivalent to "nothing lost, duplicated or reordered".
 struct SchedSink {
 	l: [usize; 3],
 	accepted: usize,
